@@ -6,6 +6,7 @@
 mod checks;
 mod e1;
 mod fields;
+mod forge;
 mod fw;
 mod opsem;
 mod pv;
@@ -69,7 +70,9 @@ fn main() {
         e1::NO_EXCLUDE.store(true, std::sync::atomic::Ordering::Relaxed);
     }
     // keep panics from generated cases quiet; they are caught and classified
-    std::panic::set_hook(Box::new(|_| {}));
+    if std::env::var("VERIF_PANIC_TRACE").is_err() {
+        std::panic::set_hook(Box::new(|_| {}));
+    }
 
     let Some(check) = checks::lookup(&id) else {
         eprintln!("unknown property {id}");
